@@ -1,1 +1,257 @@
-"""Rules for C08 (see DESIGN.md section 5)."""
+"""C08 -- Structured Append sequences reassemble."""
+import ast
+
+from .. import ev, iso, nf, pat, src
+from ..core import rule, ob, explain, Ob
+from ..ev import PyRaise
+from ..interp import Interp, make_callable, FuncVal
+from ..src import Unknown
+from .common import C, levels, micro_versions, modes, table_ob, need, single
+from .models import BufModel, SegModel, SegmentsModel, encoder_env
+from . import p04, wrappers
+
+explain('C08', '''Decided (structural): encode_sequence is control code over (content length, options); it is interpreted
+with the content abstracted to a string of distinct position markers and with segment construction, version search,
+parity and _encode replaced by recorders. For symbol_count=k it yields exactly k symbols whose chunks concatenate to the
+content in order, each built with the mode AND encoding of the whole message (GB2312 forced for hanzi), header fields
+(position i, total-1, one shared parity value), a common version equal to the largest version any chunk needs (found with
+micro=False, is_sa=True); for version=v every symbol gets v; a message that fits one symbol yields one symbol without
+header; Micro versions, symbol counts outside 1..16, missing version/count, content shorter than the count and more than
+16 symbols are refused (ValueError / DataOverflowError). The header is written as 4+4+4+8 bits before any segment with
+mode indicator 0011. The parity is the XOR of the bytes data_to_bytes yields for (content, the chunk encoding). The
+version= path has no per-chunk fit witness (known finding, pinned by a test). NOT decided: that the concatenated decoded
+payloads equal the content byte for byte (needs C01 whole).''')
+
+
+class SegsStub:
+    _model = ('add_segment', 'segments', 'modes')
+
+    def __init__(self):
+        self.segments, self.modes = [], []
+
+    def add_segment(self, seg):
+        self.segments.append(seg)
+        self.modes.append(seg.mode)
+
+    def __len__(self):
+        return len(self.segments)
+
+    def __getitem__(self, i):
+        return self.segments[i]
+
+
+def _run(fx, it, content, whole_mode, whole_enc, fit_single=None, chunk_version=None, **kw):
+    """Interpret encode_sequence with recorders.  chunk_version: f(chunk) -> version for find_version on a chunk."""
+    md = modes(fx)
+    rec = {'make_segment': [], 'find_version': [], '_encode': [], 'parity': [], 'prepare': []}
+    seg_of = {}
+
+    def prepare_data(content_, mode, encoding):
+        rec['prepare'].append((mode, encoding))
+        s = SegsStub()
+        s.add_segment(SegModel(md[whole_mode], whole_enc))
+        seg_of[id(s)] = ('whole', content_)
+        return s
+
+    def make_segment(chunk, mode=None, encoding=None):
+        rec['make_segment'].append((chunk, mode, encoding))
+        sg = SegModel(mode, encoding)
+        seg_of[id(sg)] = chunk
+        return sg
+
+    def find_version(segments, error, eci=False, micro=None, is_sa=False):
+        first = segments.segments[0]
+        what = seg_of.get(id(segments), seg_of.get(id(first)))
+        rec['find_version'].append((what, error, eci, micro, is_sa))
+        if isinstance(what, tuple):      # whole message
+            if fit_single is None:
+                from ..interp import Raised
+                raise Raised(None, it.exc_class(ast.parse('DataOverflowError', mode='eval').body, genv), 'overflow')
+            return fit_single
+        return chunk_version(what) if chunk_version else 1
+
+    def _encode(segments, error=None, version=None, mask=None, eci=None, boost_error=None, sa_info=None):
+        first = segments.segments[0]
+        rec['_encode'].append(dict(what=seg_of.get(id(segments), seg_of.get(id(first))), error=error, version=version, mask=mask,
+                                   eci=eci, boost_error=boost_error, sa_info=sa_info, mode=first.mode, encoding=first.encoding))
+        return ('SYM', len(rec['_encode']))
+
+    def parity(content_, encoding=None):
+        rec['parity'].append((content_, encoding))
+        return 0x5A
+    genv = encoder_env(fx.forest, it, prepare_data=prepare_data, make_segment=make_segment, find_version=find_version,
+                       _encode=_encode, calc_structured_append_parity=parity, Segments=SegsStub,
+                       _StructuredAppendInfo=lambda number, total, parity: ('SA', number, total, parity))
+    f = FuncVal(fx.fn('encoder', 'encode_sequence'), genv, it)
+    try:
+        res = f(content, **kw)
+        return res, rec
+    except PyRaise as e:
+        return f'raises {e.name}', rec
+
+
+CONTENT = ''.join(chr(0x100 + i) for i in range(97))     # 97 distinct position markers
+
+
+@rule('C08', 'R1', 30, 'symbol_count=k: k symbols, chunks concatenate to the content, whole-message mode/encoding, header fields, common fitting version')
+def r1(fx):
+    fn = fx.fn('encoder', 'encode_sequence')
+    md, lv = modes(fx), levels(fx)
+    it = Interp(max_steps=20_000_000)
+    hz = C(fx, 'HANZI_ENCODING')
+    for mode, enc, req_enc in (('byte', 'utf-8', None), ('byte', 'cp1252', 'cp1252'), ('alphanumeric', None, None),
+                               ('kanji', None, None), ('hanzi', None, None), ('hanzi', None, 'utf-8')):
+        for k in (1, 2, 3, 7, 16):
+            def cv(chunk):
+                return 3 + (ord(chunk[0]) % 5)     # versions differ between chunks
+            res, rec = _run(fx, it, CONTENT, mode, enc, fit_single=None, chunk_version=cv, symbol_count=k, error='m',
+                            encoding=req_enc, mode=mode if mode == 'hanzi' else None, boost_error=False)
+            key = f'{mode}/{enc or req_enc} symbol_count={k}'
+            if not isinstance(res, list):
+                yield ob(key, False, fn, got=res, want=f'{k} symbols')
+                continue
+            enc_calls = rec['_encode']
+            chunks = [e['what'] for e in enc_calls]
+            want_enc = hz if mode == 'hanzi' else (req_enc or enc)
+            probs = []
+            if len(res) != k:
+                probs.append(f'{len(res)} symbols')
+            if ''.join(c for c in chunks if isinstance(c, str)) != CONTENT:
+                probs.append('chunks do not concatenate to the content')
+            if chunks and max(map(len, chunks)) - min(map(len, chunks)) > 1:
+                probs.append('chunk lengths differ by more than one')
+            if any(e['mode'] != md[mode] for e in enc_calls):
+                probs.append(f'chunk mode {[e["mode"] for e in enc_calls][:3]} != message mode {md[mode]}')
+            if any(e['encoding'] != want_enc for e in enc_calls):
+                probs.append(f'chunk encoding {sorted(set(str(e["encoding"]) for e in enc_calls))} != message encoding {want_enc}')
+            if k > 1:
+                sa = [e['sa_info'] for e in enc_calls]
+                if sa != [('SA', i, k - 1, 0x5A) for i in range(k)]:
+                    probs.append(f'header fields {sa[:3]}')
+            vers = {e['version'] for e in enc_calls}
+            needv = max(cv(c) for c in chunks) if chunks else None
+            if vers != {needv}:
+                probs.append(f'versions {sorted(vers)} but the chunks need up to {needv}')
+            fvs = [x for x in rec['find_version'] if not isinstance(x[0], tuple)]
+            if sorted(x[0] for x in fvs) != sorted(chunks) or any((x[3], x[4]) != (False, True) for x in fvs) or any(x[1] != lv['M'] for x in fvs):
+                probs.append(f'fit search not per chunk with micro=False, is_sa=True, level M: {fvs[:2]}')
+            if rec['parity'] != [(CONTENT, want_enc)]:
+                probs.append(f'parity computed over {[(str(c)[:6], e) for c, e in rec["parity"]]}, chunks use {want_enc}')
+            if any((e['error'], e['boost_error'], e['eci']) != (lv['M'], False, False) for e in enc_calls):
+                probs.append('error/boost/eci not passed through')
+            yield ob(key, not probs, fn, got='; '.join(probs) or 'as required', want='as required')
+
+
+@rule('C08', 'R2', 12, 'version=v: only version-v symbols; one symbol without header when the message fits; refusals')
+def r2(fx):
+    fn = fx.fn('encoder', 'encode_sequence')
+    md, lv, mv = modes(fx), levels(fx), micro_versions(fx)
+    it = Interp(max_steps=20_000_000)
+    for v in (1, 5, 40):
+        msg = CONTENT if v == 1 else CONTENT * 3
+        res, rec = _run(fx, it, msg, 'byte', 'iso-8859-1', fit_single=None, version=v, error='l')
+        ok = isinstance(res, list) and len(res) >= 1 and all(e['version'] == v for e in rec['_encode']) and \
+            ''.join(e['what'] for e in rec['_encode']) == msg and \
+            [e['sa_info'] for e in rec['_encode']] == [('SA', i, len(res) - 1, 0x5A) for i in range(len(res))]
+        yield ob(f'version={v}: every symbol has version {v}, chunks in order, header fields', ok, fn,
+                 got=(res if not isinstance(res, list) else [(e['version'], e['sa_info']) for e in rec['_encode']][:3]), want=f'all version {v}')
+    for v, fit in ((5, 3), (5, 5), (None, 7)):
+        kw = dict(version=v) if v else dict(symbol_count=None, version=None)
+        if v is None:
+            continue
+        res, rec = _run(fx, it, CONTENT, 'byte', 'iso-8859-1', fit_single=fit, version=v)
+        e = rec['_encode']
+        ok = isinstance(res, list) and len(res) == 1 and len(e) == 1 and e[0]['sa_info'] is None and e[0]['version'] == v \
+            and isinstance(e[0]['what'], tuple)
+        yield ob(f'message fits version {fit} <= requested {v}: one plain symbol of version {v}', ok, fn,
+                 got=[(x['version'], x['sa_info']) for x in e], want=[(v, None)])
+    res, rec = _run(fx, it, CONTENT * 3, 'byte', 'iso-8859-1', fit_single=9, version=5)
+    yield ob('message needs version 9 > requested 5: split into Structured Append symbols', isinstance(res, list) and
+             all(x['sa_info'] is not None and x['version'] == 5 for x in rec['_encode']) and len(res) > 1, fn,
+             got=(res if not isinstance(res, list) else len(res)), want='> 1 symbols with header')
+    cases = [
+        ('Micro version M3', dict(version='M3'), 'raises ValueError'),
+        ('Micro version m1', dict(version='m1'), 'raises ValueError'),
+        ('neither version nor symbol_count', dict(), 'raises ValueError'),
+        ('symbol_count 0', dict(symbol_count=0), 'raises ValueError'),
+        ('symbol_count 17', dict(symbol_count=17), 'raises ValueError'),
+        ('symbol_count -1', dict(symbol_count=-1), 'raises ValueError'),
+    ]
+    for name, kw, want in cases:
+        res, rec = _run(fx, it, CONTENT, 'byte', 'iso-8859-1', fit_single=None, **kw)
+        yield ob(name, res == want and not rec['_encode'], fn, got=res if isinstance(res, str) else 'accepted', want=want)
+    res, rec = _run(fx, it, 'abc', 'byte', 'iso-8859-1', fit_single=None, symbol_count=4)
+    yield ob('content shorter than symbol_count', res == 'raises ValueError', fn, got=res if isinstance(res, str) else 'accepted',
+             want='raises ValueError')
+    res, rec = _run(fx, it, 'x' * 5000, 'byte', 'iso-8859-1', fit_single=None, version=1, error='h')
+    yield ob('more than 16 symbols needed', res == 'raises DataOverflowError', fn, got=res if isinstance(res, str) else f'{len(res)} symbols',
+             want='raises DataOverflowError')
+    res, rec = _run(fx, it, CONTENT, 'byte', 'iso-8859-1', fit_single=None, symbol_count=2)
+    fvs = rec['find_version']
+    yield ob('every version search in encode_sequence excludes Micro', all(x[3] is False for x in fvs) and len(fvs) >= 2, fn,
+             got=[x[3] for x in fvs], want='micro=False')
+
+
+@rule('C08', 'R3', 6, 'header = 0011, position, total-1 (4 bits each) and parity (8 bits) before any segment; parity = XOR of the message bytes')
+def r3(fx):
+    enc = fx.fn('encoder', '_encode')
+    it = Interp()
+    genv = encoder_env(fx.forest, it)
+    sa_if = single([s for s in enc.body if isinstance(s, ast.If) and ast.unparse(s.test) == 'sa_mode'], '`if sa_mode:`')
+    sm = single([s for s in enc.body if isinstance(s, ast.Assign) and ast.unparse(s.targets[0]) == 'sa_mode'], 'sa_mode')
+    yield ob('sa_mode = sa_info is not None', nf.norm(sm.value) == 'sa_info is not None', sm, got=ast.unparse(sm.value), want='sa_info is not None')
+
+    class SA(tuple):
+        _model = ('parity', 'number', 'total', 'mode')
+        mode = property(lambda s: s[0])
+        number = property(lambda s: s[1])
+        total = property(lambda s: s[2])
+        parity = property(lambda s: s[3])
+    buf = BufModel()
+    it.block(sa_if.body, dict(genv, buff=buf, sa_info=SA((3, 9, 11, 0xC4))))
+    yield ob('header bits', buf.appends == [(3, 4), (9, 4), (11, 4), (0xC4, 8)], sa_if, got=buf.appends,
+             want=[(3, 4), (9, 4), (11, 4), (0xC4, 8)])
+    cls = fx.forest.cls('encoder', '_StructuredAppendInfo')
+    new = fx.fn('encoder', '_StructuredAppendInfo.__new__')
+    r = single([s for s in new.body if isinstance(s, ast.Return)], 'return of _StructuredAppendInfo.__new__')
+    b = pat.need(r.value, 'super().__new__(cls, H_t)', '_StructuredAppendInfo.__new__')
+    yield ob('_StructuredAppendInfo = (0011, number, total, parity)', nf.norm(b['t']) == '(consts.MODE_STRUCTURED_APPEND, number, total, parity)'
+             and C(fx, 'MODE_STRUCTURED_APPEND') == 0b0011, r, got=ast.unparse(b['t']), want='(consts.MODE_STRUCTURED_APPEND, number, total, parity)')
+    props = {ast.unparse(s.targets[0]): ast.unparse(s.value) for s in cls.body if isinstance(s, ast.Assign)}
+    yield ob('field accessors', props.get('parity') == 'property(itemgetter(3))' and props.get('number') == 'property(itemgetter(1))'
+             and props.get('total') == 'property(itemgetter(2))', cls, got=props, want='itemgetter(1..3)')
+    # parity
+    pf = fx.fn('encoder', 'calc_structured_append_parity')
+    seen = []
+
+    def d2b(content, encoding):
+        seen.append((content, encoding))
+        return (b'\x01\x02\x04\x80\x80', 5, encoding)
+    genv2 = encoder_env(fx.forest, it, data_to_bytes=d2b)
+    got = FuncVal(pf, genv2, it)('<content>', 'cp1252')
+    yield ob('parity = XOR of the bytes data_to_bytes(content, encoding) yields', got == 7 and seen == [('<content>', 'cp1252')], pf,
+             got=(got, seen), want=(7, [('<content>', 'cp1252')]))
+    dflt = src.param_defaults(pf)
+    got2 = FuncVal(pf, genv2, it)(b'raw')
+    yield ob('bytes content is used as it is (no str())', seen[-1] == (b'raw', None), pf, got=seen[-1], want=(b'raw', None))
+
+
+@rule('C08', 'R4', 2, 'every chunk is dominated by a fit witness before _encode (shared with C04.R5)')
+def r4(fx):
+    fn = fx.fn('encoder', 'encode_sequence')
+    calls = [c for c in src.calls_in(fn, '_encode', into_nested=False) if src.call_name(c) == '_encode']
+    for c in calls:
+        seg, ver = p04._fit_witness(fx, fn, c)
+        yield from p04._witness_ob(fx, fn, c, seg, ver)
+
+
+@rule('C08', 'R6', 100, 'the 20 header bits are budgeted: bits written = bits budgeted for every Structured Append combination')
+def r6(fx):
+    for o in p04.sized_equals_written(fx):
+        if 'sa=True' in o.key:
+            yield o
+
+
+@rule('C08', 'R5', 8, 'make_sequence forwards all its parameters to encode_sequence; a sequence is a tuple of QRCode')
+def r5(fx):
+    yield from wrappers.forwarding(fx, {'content', 'error', 'version', 'mode', 'mask', 'encoding', 'boost_error', 'symbol_count'})
